@@ -2,7 +2,7 @@
 // importCompileCommands of the working tree, driven by one op per line (see lean/Driver/C32.lean for the
 // model side of the protocol).
 //   split <hexcmd>                 -> ok <hexarg>* | err
-//   parse <hexarg>*                -> I <list> | S <list> | D <hex> | U <list> | T <hex>    | refused
+//   parse <hexarg>*                -> I <list> | S <list> | D <hex> | U <list> | T <hex>
 //   defs <hex>                     -> <hex>
 //   simplify <hex>                 -> <hex>            (Path::simplifyPath)
 //   incs <hexbase> <hexpath>*      -> <list>
@@ -49,16 +49,6 @@ static std::string fsStr(const FileSettings& fs) {
            " | U " + listStr(fs.undefs) + " | T " + hex(fs.standard);
 }
 
-// parseArgs reads args[args.size()] when the vector ends in a bare option name (all tests but the last
-// one, "-m"): never run the real code on such a vector
-static bool endsInBareOption(const std::vector<std::string>& args) {
-    static const char* const bare[] = {"-I", "/I", "-isystem", "-D", "/D", "-U", "/U", "-std=", "/std:", "-f"};
-    if (args.empty()) return false;
-    for (const char* b : bare)
-        if (args.back() == b) return true;
-    return false;
-}
-
 int main() {
     std::string line;
     while (std::getline(std::cin, line)) {
@@ -74,7 +64,6 @@ int main() {
         } else if (f[0] == "parse") {
             std::vector<std::string> args;
             for (std::size_t i = 1; i < f.size(); ++i) args.push_back(unhex(f[i]));
-            if (endsInBareOption(args)) { std::cout << "refused" << std::endl; continue; }
             FileSettings fs{"a.c", Standards::Language::None, 0};
             Importer::parseArgs(fs, args);
             std::cout << fsStr(fs) << std::endl;
